@@ -32,3 +32,13 @@ Definition dsa_verify (key : dsa_key) (r s : Z) (data : list Z) (w : Z) : bool :
     let v := ((powmod (dk_g key) u1 (dk_p key) * powmod (dk_y key) u2 (dk_p key)) mod (dk_p key)) mod (dk_q key) in
     r =? v
   else false.
+
+(* python_dsakey.py generate_qp / generate (since /repo b7d3c31): q = getRandomPrime(N);
+   p = 2*k*q + 1 for random k until p has L bits and isPrime(p); g = index^((p-1)//q) mod p
+   (retried while g = 1); x random; y = g^x mod p.  The random draws are inputs. *)
+Definition dsa_gen_p (q k : Z) : Z := 2 * k * q + 1.
+Definition dsa_gen_g (p q index : Z) : Z := powmod index ((p - 1) / q) p.
+Definition dsa_gen_key (q k index x : Z) : dsa_key :=
+  let p := dsa_gen_p q k in
+  let g := dsa_gen_g p q index in
+  {| dk_p := p; dk_q := q; dk_g := g; dk_x := x; dk_y := powmod g x p |}.
